@@ -108,6 +108,12 @@ fn crafted() -> Vec<Vec<u8>> {
         rq(&[app.clone(), uv(&[vec![0x53, 0, 0]])]),
         ac(&[app.clone(), pcr(0, &[ts.clone()]), uv(&[item(0x51, &[0, 0, 0x40, 0]), item(0x52, b"1.2.3"), item(0x55, b"X")])]),
     ];
+    // code tables of A-ASSOCIATE-RJ (result, source, reason) and A-ABORT (source, reason): small complete sweep
+    for res in 0..4u8 { out.push(pdu_bytes(3, &[0, res, 1, 1])); }
+    for src in 0..5u8 { for reason in 0..12u8 {
+        out.push(pdu_bytes(3, &[0, 1, src, reason]));
+        out.push(pdu_bytes(7, &[0, 0, src, reason]));
+    } }
     // short buffers
     out.push(vec![]);
     out.push(vec![1]);
@@ -184,6 +190,10 @@ fn build(r: &mut Rng, p: &Pdu, label: &str, raws_in: Vec<Vec<u8>>, all_prefixes_
         7 => *r.pick(&[1017u32, 0, 4294967289, u32::MAX]),
         _ => 65536,
     };
+    // a PDU larger than the smallest maximum: exercise the strict-mode limit on every PDU type
+    let (strict, max) = if body_len > 1018 && r.coin() {
+        (r.chance(3, 4), *r.pick(&[1018u32, (body_len - 1) as u32, body_len as u32, (body_len + 1) as u32, 16378]))
+    } else { (strict, max) };
     let max_valid = (1018..=4294967288u32).contains(&max);
     let extra: Vec<u8> = match r.below(4) { 0 => vec![], 1 => gen_bytes(r, 8), 2 => vec![5, 0, 0, 0, 0, 4, 0, 0, 0, 0], _ => vec![4, 0, 0, 0] };
     let mut stream = bytes.clone();
@@ -238,9 +248,9 @@ fn build(r: &mut Rng, p: &Pdu, label: &str, raws_in: Vec<Vec<u8>>, all_prefixes_
         match &written {
             None => return Oracle::Fails { class: "write-panic".into(), detail: format!("write_pdu panicked on {}", label) },
             Some(Ok(w)) => {
+                if !fits(p) { return Oracle::Fails { class: "oversize".into(), detail: format!("{}: content exceeds its length field but write returned Ok ({} bytes)", label, w.len()) }; }
                 if !no_alias(p) { /* an Unknown value carrying an interpreted type code: its inner structure is not promised */ }
                 else if let Err(e) = ps38_valid(w) { return Oracle::Fails { class: "lengths".into(), detail: format!("{}: {}", label, e) }; }
-                if !fits(p) { return Oracle::Fails { class: "oversize".into(), detail: format!("{}: content exceeds its length field but write returned Ok ({} bytes)", label, w.len()) }; }
             }
             Some(Err(c)) => {
                 if wf { return Oracle::Fails { class: "roundtrip".into(), detail: format!("{}: well-formed PDU but write failed with class {}", label, c) }; }
@@ -248,8 +258,13 @@ fn build(r: &mut Rng, p: &Pdu, label: &str, raws_in: Vec<Vec<u8>>, all_prefixes_
                 return if !fits(p) { Oracle::Holds } else { Oracle::NotApplicable };
             }
         }
-        if !wf || !max_valid { return Oracle::NotApplicable; }
-        if let Some(d) = &prefix_bad { return Oracle::Fails { class: "prefix".into(), detail: format!("{}: {}", label, d) }; }
+        if !max_valid { return Oracle::NotApplicable; }
+        // prefixes of ANY written PDU are incomplete (or rejected by the strict limit)
+        if let Some(d) = &prefix_bad {
+            let class = if too_large { "strict" } else { "prefix" };
+            return Oracle::Fails { class: class.into(), detail: format!("{}: {} (max {}, strict {})", label, d, max, strict) };
+        }
+        if !wf { return Oracle::NotApplicable; }
         match full {
             Some(Some(Err(2))) if too_large => Oracle::Holds,
             Some(ref res) if too_large => Oracle::Fails { class: "strict".into(), detail: format!("{}: body {} > max {} in strict mode read as {:?}", label, body_len, max, res.as_ref().map(|r| r.as_ref().map(|o| o.is_some()))) },
@@ -280,7 +295,7 @@ pub fn cases(ctx: &Ctx) -> Vec<Case> {
         out.push(build(&mut r, &p, name, vec![], 300).case);
     }
     // crafted malformed buffers, attached to trivial PDUs
-    for chunk in crafted().chunks(6) {
+    for chunk in crafted().chunks(12) {
         out.push(build(&mut r, &Pdu::ReleaseRQ, "crafted", chunk.to_vec(), 300).case);
     }
     let mut i = 0u64;
